@@ -250,6 +250,51 @@ def _native_roundtrips(tier="quick", seed=0):
         rec["replay"] = {"confirmed": True, "detail": bad, "witness_class": "adjustment"}
         rec["model"] = None
     obls.append(rec)
+    # guide lists as other producers write them: only some guides, guides in another order, a guide the preset does not define, no
+    # a:avLst at all -- each adjustment reads the value of the guide carrying its name, else the definition's default
+    from lxml import etree as _et
+
+    bad = None
+    A = "http://schemas.openxmlformats.org/drawingml/2006/main"
+    for m in MSO_SHAPE:
+        try:
+            named = list(AutoShapeType.default_adjustment_values(m))
+        except Exception:
+            continue
+        if not named:
+            continue
+        k = len(named)
+        variants = [("only the last guide", [(named[-1][0], 31000)]), ("guides in reverse order", [(nm_, 1000 * (j + 1)) for j, (nm_, _) in reversed(list(enumerate(named)))]),
+                    ("a foreign guide first", [("zz9", 77777)] + [(named[0][0], 12345)]), ("no a:avLst", None), ("empty a:avLst", [])]
+        for what, guides in variants:
+            sh = slide.shapes.add_shape(m, Emu(0), Emu(0), Emu(100), Emu(100))
+            geom = sh._element.spPr.find("{%s}prstGeom" % A)
+            av = geom.find("{%s}avLst" % A)
+            if guides is None:
+                if av is not None:
+                    geom.remove(av)
+            else:
+                if av is None:
+                    av = _et.SubElement(geom, "{%s}avLst" % A)
+                for gd in list(av):
+                    av.remove(gd)
+                for gn, gv in guides:
+                    _et.SubElement(av, "{%s}gd" % A, name=gn, fmla="val %d" % gv)
+            given = dict(guides or [])
+            want = [given.get(nm_, dv) / 100000.0 for nm_, dv in named]
+            try:
+                got = [sh.adjustments[j] for j in range(len(sh.adjustments))]
+            except Exception as e:
+                got = repr(e)
+            if not isinstance(got, list) or len(got) != k or any(abs(a - b) > 1e-9 for a, b in zip(got, want)):
+                bad = bad or "%s with %s %r: adjustments read %r, expected %r (value of the guide of that name, else the definition's default)" % (m.name, what, guides, got, want)
+            sh._element.getparent().remove(sh._element)
+    nm = "C20.native.adjustments_follow_guide_names_not_positions"
+    rec = {"name": nm, "base": nm, "kind": "bounded", "status": "refuted" if bad else "discharged", "backend": "native", "time": 0, "path": 0}
+    if bad:
+        rec["replay"] = {"confirmed": True, "detail": bad, "witness_class": "adjustment"}
+        rec["model"] = None
+    obls.append(rec)
     unsupported = []
     for ct in XL_CHART_TYPE:
         nm = "C20.native.chart_type_roundtrip[%s]" % ct.name
@@ -357,3 +402,93 @@ def _native_enum_properties(tier="quick", seed=0):
 
 
 JOBS["C20.native_enum_properties"] = _native_enum_properties
+
+
+# ---------------------------------------------------------------------------------------------------------
+# guides -> adjustments: by name, never by position
+
+
+def _replay_guides(model, rec):
+    from pptx.shapes.autoshape import Adjustment, AdjustmentCollection
+
+    removed = []
+
+    class _AvLst:
+        def remove(self, gd):
+            removed.append(gd.name)
+
+    class _Gd:
+        def __init__(self, name, fmla):
+            self.name, self.fmla = name, fmla
+
+        def getparent(self):
+            return _AvLst()
+
+    for names, guides in ((["adj1", "adj2"], [("adj2", 31000)]), (["adj1", "adj2", "adj3"], [("adj3", 3), ("adj1", 1)]), (["adj"], [("zz", 5), ("adj", 7)]), (["adj1", "adj2"], [("adj1", 4), ("adj1", 9)])):
+        adjs = [Adjustment(n, 1000 + i) for i, n in enumerate(names)]
+        try:
+            AdjustmentCollection._update_adjustments_with_actuals(adjs, [_Gd(n, "val %d" % v) for n, v in guides])
+        except Exception as e:
+            return {"confirmed": True, "witness_class": "adjustment", "detail": "adjustments %s, guides %s: raised %r" % (names, guides, e)}
+        want = {}
+        for n, v in guides:
+            want[n] = v
+        got = [a.actual for a in adjs]
+        exp = [want.get(n) for n in names]
+        if got != exp:
+            return {"confirmed": True, "witness_class": "adjustment", "detail": "adjustments %s with guides %s: actual values %s, expected %s (the guide of that name)" % (names, guides, got, exp)}
+        if removed:
+            return {"confirmed": True, "witness_class": "adjustment", "detail": "adjustments %s with guides %s: reading the values removed the guides %s from the guide list" % (names, guides, removed)}
+    return {"confirmed": False, "detail": "guides are matched to adjustments by name"}
+
+
+def _make_guides(k, g):
+    @contract("C20", "C20.shapes.autoshape.AdjustmentCollection._update_adjustments_with_actuals[%d adjustments,%d guides]" % (k, g), replay=_replay_guides)
+    def body(c):
+        """each adjustment ends with the value of the last guide carrying its name, and is untouched when no guide does; guides whose name the
+        preset does not define are ignored; the guides themselves are only read.  List lengths are enumerated (1..3 adjustments x 0..3 guides; which
+        name a guide carries and every value are symbolic); longer lists are exercised by C20.native only."""
+        import z3
+
+        from pyvc.engine import Atom, FmtInt, SObj, SStr
+        from pptx.shapes.autoshape import Adjustment, AdjustmentCollection
+
+        names = ["adj%d" % (i + 1) for i in range(k)]
+        olds = [c.int("old_actual_%d" % i) for i in range(k)]
+        adjs = [SObj(Adjustment, "adjustment%d" % i, def_val=100 + i, actual=olds[i]) for i in range(k)]
+        for i in range(k):
+            adjs[i].fields["name"] = names[i]
+        # guide j: its name is one of the adjustment names or a foreign one (which: symbolic), its formula 'val <int>'
+        which = [c.int("guide_%d_names" % j) for j in range(g)]
+        vals = [c.int("guide_%d_val" % j) for j in range(g)]
+        gds = []
+        for j in range(g):
+            c.requires(z3.And(which[j] >= 0, which[j] <= k))
+            nm = None
+            for i in range(k):
+                if c.branch(which[j] == i):
+                    nm = names[i]
+                    break
+            if nm is None:
+                nm = "zz%d" % j
+            gd = SObj(None, "gd%d" % j, fmla=SStr(["val ", FmtInt(vals[j])]), __external__=True)
+            gd.fields["name"] = nm
+            gds.append(gd)
+        out = c.run(AdjustmentCollection._update_adjustments_with_actuals, adjs, gds)
+        if out.raised:
+            c.fails("never_raises", "raised %s" % out.exc)
+            return
+        for i in range(k):
+            want = olds[i]
+            for j in range(g):
+                want = z3.If(which[j] == i, vals[j], want)
+            got = adjs[i].fields["actual"]
+            c.ensures("post.adjustment_%d_has_the_value_of_its_guide" % i, (got if z3.is_expr(got) else z3.IntVal(got)) == want)
+            c.ensures("post.adjustment_%d_keeps_name_and_default" % i, adjs[i].fields["name"] == names[i] and adjs[i].fields["def_val"] == 100 + i)
+
+    return body
+
+
+for _k in (1, 2, 3):
+    for _g in (0, 1, 2, 3):
+        _make_guides(_k, _g)
